@@ -178,7 +178,7 @@ def run_server_trickle(cell):
     server, handlers, state, session = serve(srv_sock)
     kk = cell['k']
     where = cell['where']
-    prefix = UNITS[:4] if where == 'command' else UNITS[:8]
+    prefix = UNITS[:1] if where == 'command' else UNITS[:5]
     limit = CMD_T if where == 'command' else DATA_T
     ds = [api.real('d%d' % i, 0, limit) for i in range(kk)]
     for d in ds:
